@@ -19,3 +19,5 @@ pub use cas_client::CacheConfig;
 pub use file_downloader::FileDownloader;
 pub use file_upload_session::FileUploadSession;
 pub use pointer_file::PointerFile;
+#[cfg(xet_verif)]
+pub use pointer_file::{is_xet_pointer_file as verif_is_xet_pointer_file, POINTER_FILE_LIMIT as VERIF_POINTER_FILE_LIMIT};
